@@ -335,6 +335,12 @@ func C07(c *Ctx) {
 				}
 			})
 		}
+		if short == "ART" {
+			const r3 = "K14.child-table-scan-bounds"
+			c.Rule(r3, "every counted loop in the ART implementation whose induction variable indexes a nodePayload table (keys, children, idx) covers the whole index range: descending scans run while i >= 0, ascending scans while i < len(table) / i < count – byte 0x00 and 0xFF are legal key bytes")
+			ns := scanBounds(c, r3, reach, "utils.nodePayload")
+			c.Floor(r3, ns, 8, "counted scans over nodePayload tables")
+		}
 		rawSites = uniq(rawSites)
 		k := tn + "#orders-only-by:CompareKeys"
 		c.Decide(ck >= 1 && raw == 0, r1, k, roots[0].Pos(), len(reach)+ck+raw,
@@ -444,6 +450,8 @@ func C35(c *Ctx) {
 	if fn := c.Fn("lsm", "table.loadBlock"); fn != nil {
 		need(c, r2, fn, false, "verifyCheckSum", Named("lsm.(block).verifyCheckSum", "lsm.(*block).verifyCheckSum"), 1)
 	}
+	const r4 = "K2.table-cut-at-key-boundary"
+	tableCutGroup(c, r4)
 	const r3 = "K12.footer-widths-agree"
 	c.Rule(r3, "block footer layout agrees between builder and reader: entry-offsets count (4 bytes), checksum (8 bytes), checksum length (4 bytes)")
 	if fn := c.Fn("lsm", "table.loadBlock"); fn != nil {
@@ -466,4 +474,73 @@ func suffixWidthsAll(fn *ssa.Function) map[int64]int {
 		}
 	})
 	return out
+}
+
+// scanBounds: in the functions reachable from an index implementation, every counted loop
+// whose induction variable indexes a slice/array field of owner covers the full index
+// range: descending loops continue while `i >= 0`, ascending loops while `i < len(field)`
+// (or `i < count`).  Index 0 / the last index are legal positions (key byte 0x00, 0xFF).
+func scanBounds(c *Ctx, rule string, fns map[*ssa.Function]bool, owner string) int {
+	n := 0
+	var list []*ssa.Function
+	for f := range fns {
+		list = append(list, f)
+	}
+	sort.Slice(list, func(i, j int) bool { return list[i].Pos() < list[j].Pos() })
+	for _, f := range list {
+		ord := 0
+		for _, b := range f.Blocks {
+			ifi := ifOf(b)
+			if ifi == nil {
+				continue
+			}
+			bo, ok := ifi.Cond.(*ssa.BinOp)
+			if !ok {
+				continue
+			}
+			ph, ok := bo.X.(*ssa.Phi)
+			if !ok {
+				continue
+			}
+			step := phiSelfStep(ph)
+			if step == 0 {
+				continue
+			}
+			// only the loop-controlling test: exactly one successor stays in the loop
+			if blockReaches(b.Succs[0], b) == blockReaches(b.Succs[1], b) {
+				continue
+			}
+			// does the phi index a field of owner?
+			idxField := ""
+			for _, r := range *ph.Referrers() {
+				if ia, ok := r.(*ssa.IndexAddr); ok {
+					if o, fl, ok := FieldOf(ia.X); ok && o == owner {
+						idxField = fl
+					}
+				}
+			}
+			if idxField == "" {
+				continue
+			}
+			n++
+			ord++
+			k := key(f, fmt.Sprintf("scan[%d]:%s", ord, idxField))
+			if step < 0 {
+				z, isC := ConstInt(bo.Y)
+				c.Decide(bo.Op == token.GEQ && isC && z == 0, rule, k, ifi.Pos(), 2, "descending scan includes index 0", fmt.Sprintf("descending scan over %s.%s continues while `i %s %v` (expected `i >= 0`): position 0 – key byte 0x00 – is never examined", owner, idxField, bo.Op, bo.Y.Name()))
+			} else {
+				okUp := bo.Op == token.LSS
+				if okUp {
+					if call, isCall := bo.Y.(*ssa.Call); isCall {
+						bi, isB := call.Call.Value.(*ssa.Builtin)
+						okUp = isB && bi.Name() == "len"
+					} else if _, isK := bo.Y.(*ssa.Const); isK {
+						okUp = false // a literal upper bound would need the array length; none exists today
+					}
+				}
+				c.Decide(okUp, rule, k, ifi.Pos(), 2, "ascending scan runs to the end of the table", fmt.Sprintf("ascending scan over %s.%s continues while `i %s …` (expected `i < len(…)` or `i < count`)", owner, idxField, bo.Op))
+			}
+		}
+	}
+	return n
 }
